@@ -125,6 +125,8 @@ pub struct RunOut {
     pub probe: Option<bool>,
     /// lagging-node scenario: (slot fed as finalized, messages fed, certificates the node should hold but does not)
     pub laggard: Option<(u64, usize, Vec<String>)>,
+    /// certificates broadcast by correct nodes that do not pass validation: (sender, summary)
+    pub invalid_certs_sent: Vec<(usize, MCert)>,
     pub routes: BTreeMap<(u64, u64, u64), crate::cluster::ShredRoute>,
 }
 
@@ -404,7 +406,8 @@ pub async fn execute(cfg: &RunCfg, rng: &mut SRng) -> RunOut {
                 let correct = cl.correct();
                 if !correct.is_empty() {
                     let fin = { let mut f = 0; for v in &correct { f = f.max(cl.finalized_slot(*v).await); } f };
-                    let hc = crate::hostile::HostileCtx { ep: &cfg.ep, byz: &cfg.byz, correct: &correct, seen_blocks: &byz.seen_blocks, cur_slot: max_slot_seen, finalized: fin };
+                    let recent: Vec<Arc<Vec<u8>>> = { let l = cl.log.lock().unwrap(); l.shred_bytes.iter().rev().take(64).cloned().collect() };
+                    let hc = crate::hostile::HostileCtx { ep: &cfg.ep, byz: &cfg.byz, correct: &correct, seen_blocks: &byz.seen_blocks, cur_slot: max_slot_seen, finalized: fin, recent_shreds: &recent };
                     let class = classes[hrng.random_range(0..classes.len())];
                     for h in crate::hostile::generate(&mut hrng, &hc, class) {
                         *hostile_sent.entry(h.class.to_string()).or_insert(0) += 1;
@@ -482,6 +485,7 @@ pub async fn execute(cfg: &RunCfg, rng: &mut SRng) -> RunOut {
         hostile_roles,
         probe,
         laggard: lag_info,
+        invalid_certs_sent: std::mem::take(&mut l.invalid_certs_sent),
         routes: std::mem::take(&mut l.routes),
     }
 }
